@@ -39,6 +39,20 @@ class Sched:
         return 0
 
 
+def decode(code, n=6, base=4):
+    """schedule code -> n decisions in 0..base-1.  The map is a bijection on 0..base**n-1 (multiplication by an odd constant
+    modulo a power of two), so every schedule inside the bound is still reachable, but consecutive codes - which is the
+    order in which CrossHair enumerates a realised integer - give unrelated schedules instead of schedules that differ
+    only in their last, often unused, decision."""
+    m = base ** n
+    x = (code * 2654435761 + 12345) % m if (m & (m - 1)) == 0 else code % m
+    out = []
+    for _ in range(n):
+        out.append(x % base)
+        x //= base
+    return out
+
+
 STATE = {"sched": Sched(), "events": [], "inflight": 0, "max_inflight": 0, "order": 0, "waits": 0, "sleeps": 0, "budget_hit": None}
 
 
